@@ -22,7 +22,8 @@ def maps_for(ctx, n_random):
         {"base": -(1 << 63), "r0": 0, "step": 1, "scale_pow2": 0},        # rank 0 is i64::MIN
         {"base": (1 << 63) - 64, "r0": 0, "step": 1, "scale_pow2": -1},   # up to i64::MAX - small
         {"base": 0, "r0": 0, "step": 1_000_000_000, "scale_pow2": 0},
-        {"base": -(1 << 63), "r0": 0, "step": 2_500_000_000_000_000_000, "scale_pow2": 0},   # wide: timestamps more than 2^63 ns apart (used where all ranks fit)
+        {"base": -(1 << 63), "r0": 0, "step": 2_500_000_000_000_000_000, "scale_pow2": 0},   # wide: timestamps more than 2^63 ns apart (used where all ranks fit: up to 7)
+        {"base": -(1 << 63), "r0": 0, "step": 4_700_000_000_000_000_000, "scale_pow2": 0},   # wider: two ranks apart is already more than 2^63 ns (ranks up to 3)
     ]
     for _ in range(n_random):
         ms.append({"base": rnd.randrange(-(1 << 60), 1 << 60), "r0": 0, "step": rnd.choice([1, 7, 1000, 10 ** 9, 3 * 10 ** 12]),
